@@ -65,7 +65,12 @@ func rxCandidates(rule string) []string {
 func init() {
 	registerSuite("routes", func(c *suiteCtx) {
 		nCfg := 60 * c.scale
-		type key struct{ cfg int; method, path string; rp bool; fwd string }
+		type key struct {
+			cfg          int
+			method, path string
+			rp           bool
+			fwd          string
+		}
 		for ci := 0; ci < nCfg; ci++ {
 			r := c.rng.fork()
 			var legacy, rules []string
